@@ -11,12 +11,22 @@ if grep -rnE '^\s*(Admitted|Axiom|Parameter|Conjecture|Hypothesis|Variable)\b|\b
   echo "BUILD-GATE: forbidden construct found" >&2
   exit 2
 fi
+# 1b. regenerate the translated layer from /repo's CURRENT source (fail closed: on a translation
+#     error the generated file is removed, so that exactly the theorems that depend on it stop building)
+for tr in scalars guards; do
+  if [ -f harness/translate/$tr.py ]; then
+    python3 harness/translate/$tr.py > build/translate_$tr.log 2>&1 || { cat build/translate_$tr.log >&2; case $tr in scalars) rm -f coq/theories/Gen/Scalars.v;; guards) rm -f coq/theories/Gen/Guards.v;; esac; }
+  fi
+done
 cd coq
 # 2. regenerate _CoqProject file list and Makefile
 { sed -n '1,2p' _CoqProject.head; find theories -name '*.v' | LC_ALL=C sort; } > _CoqProject
 coq_makefile -f _CoqProject -o Makefile > /dev/null
 # 3. make (16 cores), under a shell timeout
-timeout 3000 make -j16 > "$ROOT/build/make.log" 2>&1 || { tail -40 "$ROOT/build/make.log" >&2; echo "BUILD: make failed" >&2; exit 3; }
+#    -k: a broken proof in one file must not hide the state of the others; each check then
+#    re-compiles its own Properties/<id>.v, which fails iff something in ITS dependency cone is broken.
+timeout 3000 make -k -j16 > "$ROOT/build/make.log" 2>&1 || { grep -E "^File|Error" "$ROOT/build/make.log" | head -20 >&2; echo "BUILD: some files failed (see build/make.log)" >&2; }
+[ -f theories/Extract/Extract.vo ] || { echo "BUILD: the executable model itself does not build" >&2; exit 3; }
 # 4. extracted model binary
 if [ ! -x "$ROOT/build/model.exe" ] || [ model.ml -nt "$ROOT/build/model.exe" ] || [ driver.ml -nt "$ROOT/build/model.exe" ]; then
   rm -rf "$ROOT/build/ml"; mkdir -p "$ROOT/build/ml"
